@@ -621,6 +621,26 @@ class Interp:
                 if hook:
                     hook(p, env, p.out[-1])
                 return
+            if isinstance(st.value, ast.YieldFrom):
+                # `yield from E` as a statement: one yield per item of a concrete sequence; a contract iterable (symbolic length)
+                # is handed to the contract's `on_yield_from` clause (the ghost sequence p.out gets a marker, so that a
+                # `yields` clause or a count of p.out never overlooks it)
+                v = self.eval(st.value.value, env)
+                if isinstance(v, (TupleV, ListV)):
+                    hook = self.loops.get('on_yield')
+                    for item in list(v.items):
+                        p.out.append(item)
+                        if hook:
+                            hook(p, env, item)
+                    return
+                hook = self.loops.get('on_yield_from')
+                if hook is None:
+                    raise Unsupported('yield from a contract iterable without an on_yield_from clause')
+                marker = ObjV('yield-from', {}, name='yield from')
+                marker.iterable = v
+                p.out.append(marker)
+                hook(p, env, v)
+                return
             self.eval(st.value, env)
         elif isinstance(st, ast.Assign):
             bat = self.loops.get('before_assign_to')
@@ -1301,6 +1321,13 @@ class Interp:
                     return self.call(a.fields[iname], [a, b], {})
             if name and name in a.fields:
                 return self.call(a.fields[name], [a, b], {})
+        hook = self.loops.get('binop')
+        if hook is not None:
+            # operand kinds the engine has no semantics for (str * int, str + str, tuple + contract sequence ...): the contract
+            # may give the result (a stated library contract); None = not covered
+            r = hook(self.path, op, a, b, inplace)
+            if r is not None:
+                return r
         raise Unsupported('operator %s on %s, %s' % (type(op).__name__, type(a).__name__, type(b).__name__))
 
     def compare(self, op, a, b):
@@ -1374,6 +1401,13 @@ class Interp:
             if ga is not None:
                 return ga(self.path, o, attr)
             raise Unsupported('attribute %s.%s' % (o.name or o.cls, attr))
+        vm = self.loops.get('value_methods')
+        if vm:
+            # methods of builtin values given by the contract (library contracts, e.g. str.join / str.format / list.extend as
+            # opaque operators): keyed by (engine value class name, attribute), consulted before the built-in ones
+            f = vm.get((type(o).__name__, attr))
+            if f is not None:
+                return FuncV(f.name, lambda p, args, kw, _f=f, _o=o: _f.fn(p, [_o] + args, kw))
         if isinstance(o, IntV) and attr == 'bit_length':
             # (x & -x).bit_length() through a local: the term is band(x, -x) -> tz(x) + 1
             t = o.t
